@@ -105,6 +105,48 @@ CHECKS = {
         "Trusted: Lean kernel; model; binary register records at least one byte wide (domain).",
         "6/C18",
     ),
+    "C14": (
+        True,
+        "Lean 4 proof that what a line writes/reads is independent of the scratch slots of shared Field objects + metamorphic correspondence: every object's observations in a random interleaved history vs. an isolated replay of its own operations on the real code",
+        "Theorems Props.C14 (assign_overwrites, write_independent_of_slots, read_is_function_of_line; World-level locality theorems as listed in the evidence). On the implementation: random interleavings of construct / read / write / append / remove / data mutation over 2-4 registers and files whose classes share one Line or one Field; each object's observation sequence must equal that of its isolated replay; files constructed without arguments must not share their container, must equal File.read('') and write ''.",
+        "Partial: Python aliasing (which expressions create new objects) is represented by hand in the model; the interleaving-vs-isolated comparison is impl-vs-impl and is what exercises it on the real code. Trusted: Lean kernel, harness.",
+        "6/C14",
+    ),
+    "C15": (
+        True,
+        "Lean 4 proof that the code's length check + pairwise loop is exactly pointwise equality (characterisation, reflexive, symmetric, prefix never equal, foreign false) + differential correspondence on pairs of sequences and on reading the same content twice",
+        "Theorems Props.C15: seqEq_iff, seqEq_pointwise, seqEq_refl, seqEq_symm, prefix_ne, expectedEq_eq_seqEq, main (the model's ==, reversed ==, !=, reflexive and foreign comparisons satisfy Spec.C15.holds for all sequences). The implementation is compared on equal / one-position / class-only / subclass / prefix / extension / foreign pairs for the three families and on double reads. Known finding K1 (NaN spans) is listed in KNOWN_FINDINGS.txt.",
+        "Trusted: Lean kernel; the model's element equality = exact class and equal data (CPython's reflected-operand rule, DESIGN appendix A), compared with the code on every case.",
+        "6/C15",
+    ),
+    "C16": (
+        True,
+        "Lean 4 proof of path/content and disk/memory equivalence for every codec with dec(enc s) = s, every file system and every element loop + correspondence on a real scratch directory over families x storages x 4 encodings x non-ASCII contents",
+        "Theorems Props.C16: read_path_eq_content, written_file_decodes, store_other, disk_roundtrip, binary_identity. The runtime part (open() mode/encoding arguments, the path/content decision, newline handling) is observed: read(path) vs read(content), bytes on disk decoded with the declared encoding vs the in-memory output, disk round trip vs memory round trip.",
+        "Partial: codecs, open() and the file system are parameters of the model; their real behaviour is observed by the harness only. Trusted: Lean kernel, Python codecs, OS.",
+        "6/C16",
+    ),
+    "C17": (
+        True,
+        "Lean 4 proof over every element list and every fault position of the driver-loop model (exception identity, handle ownership and release, clean prefix) + full fault enumeration on the real code with wrappers around builtins.open and the adapter's StringIO/BytesIO",
+        "Theorems Props.C17: runLoop_fault, runLoop_ok, write_fault, write_ok, ownership. Full enumeration every run: 1-8 elements x every k x {read, write} x 3 families x {path, buffer/content} x {text, binary} x 3 exception types (2784 traces) judged by Spec.C17.holds.",
+        "Partial: real handle release is an OS fact observed through the closed flag of the handles; the model contains the with-protocol logic. Trusted: Lean kernel, harness wrappers.",
+        "6/C17",
+    ),
+    "C19": (
+        True,
+        "Lean 4 proof that sorted/filter/last selects the greatest key <= v, is invariant under permutation of the declaration order, leaves the state unchanged when no key qualifies, and is class-local + exhaustive correspondence over all subsets and orders of a 4-key alphabet",
+        "Theorems Props.C19: closest_spec, closest_none, closest_perm, greatest_unique, greatestBelow_spec, closest_eq_greatestBelow, setVersion_active, setVersion_own, setVersion_isolated (parent and siblings unaffected). Exhaustive: every subset x every declaration order x 9 requests x sequences x three families on a fresh parent/child/sibling trio, observing the active list object and the types File.read actually uses.",
+        "Trusted: Lean kernel + standard axioms; Python str order = List Char lexicographic order (checked by the correspondence); single-inheritance lookup model.",
+        "6/C19",
+    ),
+    "C20": (
+        True,
+        "Lean 4 proof that the view is filter x sorted user properties with the framework's own excluded (for all files, types, property sets) + differential correspondence against pandas-backed _as_df incl. overwriting every cell of the frame",
+        "Theorems Props.C20: customProps_eq (sorted user names, framework names excluded, for any order of getmembers), customProps_framework_only, main (Spec.C20.holds of the model's view for all inputs), view_is_a_copy. The implementation's columns, shape, every cell (null-aware) and non-aliasing are compared on generated files with mixed kinds, None anywhere, subclass and foreign types.",
+        "Partial: the data frame is pandas (construction, null representation, copy semantics are observed, not modelled). Framework property list is regenerated from the code each run.",
+        "6/C20",
+    ),
 }
 
 ALL = [f"C{i:02d}" for i in range(1, 21)]
